@@ -578,6 +578,9 @@ static uint64_t drawBoot(Rng& rng) {
 static int64_t drawRtcValue(Rng& rng);
 
 static int64_t drawSetValue(Rng& rng) {
+  // values right next to the invalid sentinel (INT32_MIN): legitimate times that an "is it the sentinel / is it
+  // unchanged" test on an uninitialised or half-initialised clock may confuse with internal state
+  if (rng.chance(1, 16)) return -2147483648LL + rng.range(1, 70);
   switch (rng.below(5)) {
     case 0: return (int64_t)rng.below(1000);
     case 1: return -(int64_t)rng.below(2000000000);
